@@ -15,6 +15,7 @@ type Script struct {
 	bySym  map[string]*decl
 	nextID int
 	axioms []*decl // axioms attached to symbols (included when the symbol is used)
+	Inline int     // >0: Define returns the term itself (we are under a quantifier binder)
 }
 
 type decl struct {
@@ -112,7 +113,7 @@ func (s *Script) Axiom(key string, syms []string, body string) {
 
 // Define names a term.
 func (s *Script) Define(prefix, sort, term string) string {
-	if isAtom(term) {
+	if isAtom(term) || s.Inline > 0 {
 		return term
 	}
 	name := s.Fresh(prefix)
